@@ -450,12 +450,25 @@ func ReplayStore(id int, d StoreDims, steps []StoreStep) (res Result) {
 				err = e
 				break
 			}
+			var kb moss.Batch
+			if d.Kids {
+				if kb, e = b.NewChildCollectionBatch("kid", moss.BatchOptions{}); e != nil {
+					err = e
+					break
+				}
+			}
 			for k, o := range a.Ops {
 				switch o {
 				case "set":
 					b.Set(s.keyBytes(k+1), s.valBytes(a.N))
+					if kb != nil {
+						kb.Set(s.keyBytes(k+1), s.valBytes(a.N))
+					}
 				case "del":
 					b.Del(s.keyBytes(k + 1))
+					if kb != nil {
+						kb.Del(s.keyBytes(k + 1))
+					}
 				}
 			}
 			err = s.coll.ExecuteBatch(b, moss.WriteOptions{})
@@ -469,6 +482,10 @@ func ReplayStore(id int, d StoreDims, steps []StoreStep) (res Result) {
 			s.opts = moss.StorePersistOptions{NoSync: d.NoSync}
 			switch a.Kind {
 			case "full":
+				if d.Kids {
+					err = fmt.Errorf("the kids dimension needs append-only behaviours")
+					break
+				}
 				s.opts.CompactionConcern = moss.CompactionForce
 			case "partial":
 				s.opts.CompactionConcern = moss.CompactionAllow
